@@ -133,6 +133,10 @@ func NewWithClient(cfg Cfg, incarnation int, client kv.Client) (*Inst, error) {
 		bc := ring.BasicLifecyclerConfig{ID: cfg.ID, Addr: "10.0.1.1:7946", Zone: cfg.Zone, HeartbeatPeriod: cfg.Heartbeat, HeartbeatTimeout: hbt,
 			TokensObservePeriod: cfg.Observe, NumTokens: cfg.NumTokens, KeepInstanceInTheRingOnShutdown: !cfg.Unregister, RingTokenGenerator: gen}
 		var d ring.BasicLifecyclerDelegate = ring.NewInstanceRegisterDelegate(cfg.RegisterState, cfg.NumTokens)
+		if cfg.FinalSleep > 0 {
+			// the application's own stopping work (flushing, hand-over): the lifecycler keeps heart-beating meanwhile
+			d = slowStopDelegate{d, cfg.FinalSleep}
+		}
 		if cfg.TokensFile != "" {
 			d = ring.NewTokensPersistencyDelegate(cfg.TokensFile, ring.ACTIVE, d, logger)
 		}
@@ -514,10 +518,7 @@ func (c *Checker) Check() (findings []Finding, stats map[string]int) {
 			}
 			// (d) heartbeat period while running
 			if last, ok := lastWriteAt[v.Writer]; ok && w.Cfg.Heartbeat > 0 && (w.StopAt.IsZero() || !T.After(w.StopAt)) {
-				bound := w.Cfg.Heartbeat
-				if w.Cfg.Kind == "basic" {
-					bound += w.Cfg.Observe
-				}
+				bound := heartbeatBound(w.Cfg)
 				if gap := T.Sub(last); gap > bound {
 					add("heartbeat-gap", fmt.Sprintf("%s wrote nothing for %v (heartbeat period %v)", v.Writer, gap, w.Cfg.Heartbeat), d(nil))
 				}
@@ -539,13 +540,34 @@ func (c *Checker) Check() (findings []Finding, stats map[string]int) {
 		if !w.StopAt.IsZero() && w.StopAt.Before(end) {
 			end = w.StopAt
 		}
-		bound := w.Cfg.Heartbeat
-		if w.Cfg.Kind == "basic" {
-			bound += w.Cfg.Observe
-		}
+		bound := heartbeatBound(w.Cfg)
 		if !end.IsZero() && end.Sub(last) > bound {
 			add("heartbeat-gap", fmt.Sprintf("%s wrote nothing for %v until %v (heartbeat period %v)", w.Writer, end.Sub(last), end.Sub(c.T0), w.Cfg.Heartbeat), map[string]any{"writer": w.Writer})
 		}
 	}
 	return
+}
+
+// heartbeatBound is the longest legitimate silence of a running lifecycler whose writes are accepted. The full
+// lifecycler has one ticker for its whole life: one period. The basic lifecycler heartbeats on its own ticker while it
+// observes its tokens and starts a new ticker when it enters Running, so the silence across that hand-over is one
+// period plus the part of the last period that had elapsed when the observation ended: at most min(observe, period).
+func heartbeatBound(c Cfg) time.Duration {
+	b := c.Heartbeat
+	if c.Kind == "basic" {
+		b += min(c.Observe, c.Heartbeat)
+	}
+	return b
+}
+
+// slowStopDelegate stands for an application whose stopping work takes a while (the basic lifecycler's counterpart of
+// the full lifecycler's final sleep).
+type slowStopDelegate struct {
+	ring.BasicLifecyclerDelegate
+	d time.Duration
+}
+
+func (s slowStopDelegate) OnRingInstanceStopping(l *ring.BasicLifecycler) {
+	time.Sleep(s.d)
+	s.BasicLifecyclerDelegate.OnRingInstanceStopping(l)
 }
